@@ -73,6 +73,16 @@ CLAIMS.update({
              ref="§7 C19", technique=MST_TECH, note=MST_NOTE % "C19"),
 })
 
+CLAIMS["C09"] = dict(level="other",
+    text="AppCodec.tla is the object-header grammar as a table (size / packing of every supported group and variation, bytes implied by qualifier and count or range, per function class) with the "
+         "operators Verdict / ExpCount; TLC enumerates the product space from MC_AppCodec.tla (every known variation and some unknown x every qualifier and some undefined x boundary counts and ranges incl. 0, 255, 256, "
+         "65535 and ranges ending at 65535 x READ / non-READ request / response x {one byte short, exact, one byte long}, plus pairs of headers: 48.8 k cases); the harness builds each case into bytes and asks the "
+         "library's ParsedFragment::parse, to_request / to_response, the lazy iterators at every decode level and the master's extraction; Mon_C09 (TLC trace validation) compares with the table. Every fragment the real "
+         "outstation and master transmit in model-generated scenarios is additionally parsed by the library in the peer's role and compared with the harness codec.",
+    ref="§7 C09", technique="TLA+ table specification enumerated by TLC + trace validation of the parser's answers",
+    note="Not a transition system: TLC is used as enumerator and as evaluator of the reference operators (the case-analysis use of TLA+). Trusted: AppCodec.tla (a transcription of the IEEE 1815 object library made for this check), "
+         "the harness codec. Object contents are random bytes (value fidelity is C10); free-format g70 and attribute g0 objects are not enumerated; quick runs a seeded third of the cases that are neither must-accept nor end-of-range.")
+
 def main():
     head = subprocess.run(["git", "-C", "/repo", "log", "--format=%h %s"], capture_output=True, text=True).stdout.splitlines()
     hooks = [l.split()[0] for l in head if "verif hooks" in l]
@@ -94,7 +104,7 @@ def main():
         })
     na = [{"property_id": p, "reason": NA.get(p, "check not built yet (work in progress)")} for p in PROPS if p not in CLAIMS]
     m = {"version": 1,
-         "setup_cmd": "cd /verif/harness && cargo build --offline 2>&1 | tail -2 && cd /verif/spec && for f in Trace_Outstation.tla TM_C03.tla TM_C04.tla TM_C06.tla TM_C07L.tla TM_C08.tla Trace_Link.tla TM_C05.tla TM_C07.tla TM_C11.tla TM_C12.tla TM_C13.tla TM_C14.tla Trace_Master.tla TM_C15.tla TM_C16.tla TM_C17.tla TM_C19.tla; do tla-sany $f > /dev/null || exit 1; done",
+         "setup_cmd": "cd /verif/harness && cargo build --offline 2>&1 | tail -2 && cd /verif/spec && for f in Trace_Outstation.tla TM_C03.tla TM_C04.tla TM_C06.tla TM_C07L.tla TM_C08.tla Trace_Link.tla TM_C05.tla TM_C07.tla TM_C11.tla TM_C12.tla TM_C13.tla TM_C14.tla Trace_Master.tla TM_C09.tla TM_C15.tla TM_C16.tla TM_C17.tla TM_C19.tla; do tla-sany $f > /dev/null || exit 1; done",
          "hooks": {"guard": "dnp3_verif",
                    "enable": "rustflags --cfg dnp3_verif in /verif/harness/.cargo/config.toml (the harness crate has a path dependency on /repo/dnp3, default-features off)",
                    "baseline_off_cmd": "cd /repo && cargo test --workspace --no-fail-fast --offline",
